@@ -10,6 +10,8 @@ import (
 	"testing"
 
 	enc "github.com/named-data/ndnd/std/encoding"
+	"github.com/named-data/ndnd/std/ndn"
+	spec "github.com/named-data/ndnd/std/ndn/spec_2022"
 	"pgregory.net/rapid"
 
 	"verif/harness/internal/evid"
@@ -390,6 +392,33 @@ func execC12(c C12Case) (res evid.Result) {
 					}
 				}
 			}
+		}
+	}
+
+	// ---- re-expression: an application builds its next Interest from the FinalName of the one
+	// it sent before (new nonce, new signature). The packet already built must stay what it was
+	// (seeded C12-r6-1: the encoder re-used the old digest component as its placeholder and
+	// zeroed it -- inside the first packet's wire), and the new one must decode.
+	if hasParams && len(b.final) > 0 {
+		before := append([]byte(nil), b.wire.Join()...)
+		var s2 ndn.Signer
+		if b.rec != nil {
+			s2 = b.rec.inner
+		}
+		nonce2 := uint64(0x7e57)
+		e2, err2 := spec.Spec{}.MakeInterest(b.final, &ndn.InterestConfig{Nonce: &nonce2}, blobsToWire(p.Params), s2)
+		if after := b.wire.Join(); !bytes.Equal(after, before) {
+			return fail("building a second Interest from the first one's FinalName changed the bytes of the first packet (first difference at byte %d of %d)", firstDiffAt(after, before), len(before))
+		}
+		if err2 == nil {
+			w2 := append([]byte(nil), e2.Wire.Join()...)
+			if d2 := decode("I", "ReadInterest", enc.NewBufferReader(w2)); d2.err != nil {
+				return fail("an Interest built from the FinalName of an earlier one does not decode: %v (packet %s)", d2.err, shortB(w2))
+			}
+			if d1 := decode("I", "ReadInterest", enc.NewBufferReader(append([]byte(nil), b.wire.Join()...))); d1.err != nil {
+				return fail("after a second Interest was built from its FinalName the first packet no longer decodes: %v", d1.err)
+			}
+			res.Classes = append(res.Classes, "re-expressed-from-FinalName")
 		}
 	}
 
